@@ -653,7 +653,7 @@ impl Tracker {
         }
         let now = s.now;
         let before_n = s.model.recs.len();
-        s.model.recs.retain(|_, r| now - r.last_heard < t * 1_000_000_000);
+        s.model.recs.retain(|_, r| u128::from(now - r.last_heard) < u128::from(t) * 1_000_000_000);
         if s.model.recs.len() < before_n {
             self.wit("prune_removed");
         }
@@ -942,6 +942,12 @@ pub fn c12(tier: Tier) -> i32 {
             break;
         }
     }
+    // every type code, and the all-zero address (a legal address, not a sentinel)
+    {
+        let dt = if tier.thorough() { 4 } else { 3 };
+        let o = explore(&run, &format!("C12/type-codes/d{dt}"), tracker(alphabet_c12_typecodes(), (35.0, -80.0), 500.0, 1_000_000_000, 12), dt);
+        outs.push(("type-codes".into(), o));
+    }
     // the tracked set shrinks only through expiry: accounting letters interleaved with prune, one second per event
     {
         let de = if tier.thorough() { 7 } else { 5 };
@@ -997,6 +1003,40 @@ pub fn c13(tier: Tier) -> i32 {
         let o = explore(&run, &format!("C13/polar-jump/d{dp}"), tracker(alpha, rxp, 500.0, 1_000_000_000, 13), dp);
         outs.push(("polar-jump".into(), o));
     }
+    // the carrier of a position report (DF17 / DF18, barometric / GNSS height) does not matter to the tracker rules
+    {
+        let rxc = (35.0, -80.0);
+        let dc = if tier.thorough() { 6 } else { 5 };
+        let o = explore(&run, &format!("C13/carriers/d{dc}"), tracker(alphabet_c13_carriers(rxc), rxc, 500.0, 1_000_000_000, 13), dc);
+        outs.push(("carriers".into(), o));
+    }
+    // one pair 20 m on either side of every NL transition latitude, both hemispheres: the pairing (longitude zone count)
+    {
+        let mut n_pairs = 0u64;
+        for nl in 2..=59u32 {
+            let t = crate::cprref::nl_transition(nl);
+            for sign in [1.0f64, -1.0] {
+                for off_m in [-20.0f64, 20.0] {
+                    let lat = sign * (t + off_m / 111_320.0);
+                    if lat.abs() >= 89.9 {
+                        continue;
+                    }
+                    let lon = 10.2;
+                    let mut alpha = vec![];
+                    for odd in [false, true] {
+                        alpha.push(Ev::Frame { name: format!("a1.nl{nl}{}{off_m}.{}", if sign > 0.0 { "N" } else { "S" }, if odd { "odd" } else { "even" }),
+                            bytes: crate::enc::es_frame(17, 5, A1, crate::enc::me_pos_latlon(11, 9000, odd, lat, lon)) });
+                    }
+                    let o = explore(&run, &format!("C13/nl-strip{nl}/d2"), tracker(alpha, (lat, 10.0), 500.0, 1_000_000_000, 13), 2);
+                    n_pairs += o.transitions;
+                    if outs.iter().all(|(l, _)| l != "nl-strips") {
+                        outs.push(("nl-strips".into(), o));
+                    }
+                }
+            }
+        }
+        run.add("nl_strip_transitions", n_pairs);
+    }
     // receivers next to the poles: raw reports on and next to the +-90 deg zone latitudes (NL = 1)
     for (label, south) in [("south-pole", true), ("north-pole", false)] {
         let rxp = if south { (-89.9, 30.0) } else { (89.9, 30.0) };
@@ -1031,6 +1071,12 @@ pub fn c14(tier: Tier) -> i32 {
     let rx = (35.0, -80.0);
     let o = explore(&run, &format!("C14/attrs/d{depth}"), tracker(alphabet_c14(rx), rx, 500.0, 1_000_000_000, 14), depth);
     outs.push(("attrs".into(), o));
+    // altitude codes in paired reports (0 ft is an altitude)
+    {
+        let da = if tier.thorough() { 6 } else { 5 };
+        let o = explore(&run, &format!("C14/altitudes/d{da}"), tracker(alphabet_c14_altitudes(rx), rx, 500.0, 1_000_000_000, 14), da);
+        outs.push(("altitudes".into(), o));
+    }
     // the position-centred alphabet of C13 under the C14 oracles (track, views)
     let d2 = if tier.thorough() { 6 } else { 4 };
     let o = explore(&run, &format!("C14/positions/d{d2}"), tracker(alphabet_c13(rx, 500.0, tier), rx, 500.0, 1_000_000_000, 14), d2);
@@ -1044,6 +1090,10 @@ pub fn c14(tier: Tier) -> i32 {
         outs.push(("lasso".into(), o));
         let o = lasso(&run, &format!("C14/lasso-deep/p3x{ll}"), tracker(alphabet_c13_deep(rx, 2000.0), rx, 2000.0, 1_000_000_000, 14), 3, ll);
         outs.push(("lasso-deep".into(), o));
+        // tracks of more than a thousand superseded positions (a capacity bound on the track would drop the oldest)
+        let (lp, lt) = if tier.thorough() { (4, 4000) } else { (3, 1700) };
+        let o = lasso(&run, &format!("C14/long-track/p{lp}x{lt}"), tracker(alphabet_c14_longtrack(rx), rx, 500.0, 1_000_000_000, 14), lp, lt);
+        outs.push(("long-track".into(), o));
     }
     finish(
         run,
@@ -1135,3 +1185,4 @@ pub fn replay_history(input: &str) -> i32 {
     println!("replay: {bad} oracle violations");
     0
 }
+
